@@ -78,8 +78,33 @@ func reach(start Loc, target func(ssa.Instruction) bool, stop func(ssa.Instructi
 		ret *retPoint
 	}
 	seen := map[skey]bool{}
-	queue := []*item{{start.B, start.I, nil, nil}}
+	// a start inside a helper with a single call site continues in its caller after the helper returns
+	var rootRet func(fn *ssa.Function, depth int) *retPoint
+	rootRet = func(fn *ssa.Function, depth int) *retPoint {
+		if depth >= 3 || theWorld == nil || !isHelper(fn) {
+			return nil
+		}
+		sites := theWorld.callSitesOf(fn)
+		if len(sites) != 1 {
+			return nil
+		}
+		c := sites[0]
+		idx := 0
+		for i, in := range c.Block().Instrs {
+			if in == ssa.Instruction(c) {
+				idx = i + 1
+			}
+		}
+		parent := rootRet(c.Parent(), depth+1)
+		d := 1
+		if parent != nil {
+			d = parent.depth + 1
+		}
+		return &retPoint{b: c.Block(), idx: idx, parent: parent, depth: d, fn: c.Parent()}
+	}
+	queue := []*item{{start.B, start.I, rootRet(start.B.Parent(), 0), nil}}
 	first := true
+	anyDescend := false
 	onStack := func(rp *retPoint, fn *ssa.Function) bool {
 		for p := rp; p != nil; p = p.parent {
 			if p.fn == fn {
@@ -119,6 +144,11 @@ func reach(start Loc, target func(ssa.Instruction) bool, stop func(ssa.Instructi
 						path = append([]*ssa.BasicBlock{p.b}, path...)
 					}
 				}
+				if anyDescend && !confirmReach(start, target, stop, cut) {
+					// the block-level witness runs through a walked-through helper and no feasible
+					// path (helper results resolved per path) confirms it
+					return nil, nil
+				}
 				return path, in
 			}
 			if stop != nil && stop(in) {
@@ -135,6 +165,7 @@ func reach(start Loc, target func(ssa.Instruction) bool, stop func(ssa.Instructi
 					rp := &retPoint{b: it.b, idx: i + 1, parent: it.ret, depth: depth + 1, fn: it.b.Parent()}
 					queue = append(queue, &item{callee.Blocks[0], 0, rp, it})
 					descended = true
+					anyDescend = true
 					break
 				}
 			}
@@ -150,6 +181,27 @@ func reach(start Loc, target func(ssa.Instruction) bool, stop func(ssa.Instructi
 		}
 	}
 	return nil, nil
+}
+
+// confirmReach re-establishes a reachability witness by enumerating feasible paths, on which the results of
+// walked-through helpers are resolved (a helper returning a non-nil error on the remaining paths cannot be followed by
+// the caller's err == nil branch). Exceeding the budget counts as reachable.
+func confirmReach(start Loc, target func(ssa.Instruction) bool, stop func(ssa.Instruction) bool, cut EdgeSet) bool {
+	found := false
+	term := func(in ssa.Instruction) bool {
+		return (target != nil && target(in)) || (stop != nil && stop(in))
+	}
+	err := walkPathsP(start, term, func(b *ssa.BasicBlock, succ int, path []ssa.Instruction) bool {
+		if found || cut[Edge{b, succ}] {
+			return false
+		}
+		return phiFeasible(b, succ, path)
+	}, 300000, func(path []ssa.Instruction, end pathEnd) {
+		if end == endTerminal && len(path) > 0 && target != nil && target(path[len(path)-1]) {
+			found = true
+		}
+	})
+	return found || err != nil
 }
 
 func reachable(start Loc, target func(ssa.Instruction) bool, stop func(ssa.Instruction) bool, cut EdgeSet) bool {
@@ -681,8 +733,30 @@ func resolvedEq(a, b ssa.Value) bool {
 func pathAsserts(path []ssa.Instruction, pred func(c ssa.Value, truth bool) bool) bool {
 	found := false
 	pathEdges(path, func(b *ssa.BasicBlock, succ int) {
-		if c, t, ok := edgeAssertion(b, succ); ok && pred(c, t) {
+		c, t, ok := edgeAssertion(b, succ)
+		if !ok {
+			return
+		}
+		if pred(c, t) {
 			found = true
+			return
+		}
+		// the condition may be the result of a walked-through helper (or a phi this path fixes): what the
+		// edge asserts is then the condition the helper returned on this path
+		if curPath != nil && curEdgeIdx >= 0 {
+			rc := valueOnPath(rvI(c, curEdgeIdx), path)
+			for k := 0; rc != c && k < 6; k++ {
+				nc, neg := stripNot(rc)
+				if neg {
+					t = !t
+				}
+				if pred(nc, t) {
+					found = true
+					return
+				}
+				c = nc
+				rc = valueOnPath(rvAny(nc), path)
+			}
 		}
 	})
 	return found
@@ -714,6 +788,9 @@ func typeEdgeFilter(v ssa.Value, T types.Type) func(b *ssa.BasicBlock, succ int)
 func sameIface(a, b ssa.Value) bool {
 	if a == b {
 		return true
+	}
+	if oa, ob := origin(a), origin(b); (oa != a || ob != b) && oa == ob {
+		return true // the same value seen through a helper's parameter
 	}
 	if ci, ok := a.(*ssa.ChangeInterface); ok {
 		return sameIface(ci.X, b)
@@ -965,10 +1042,10 @@ func valueOnPath(v ssa.Value, path []ssa.Instruction) ssa.Value {
 		var prev *ssa.BasicBlock
 		found := false
 		for i, in := range path {
-			if in.Block() == phi.Block() && (i == 0 || path[i-1].Block() != phi.Block()) {
-				if i > 0 {
-					prev = path[i-1].Block()
-				}
+			// a block is entered from a predecessor at its first instruction; coming back into the middle of it
+			// after a walked-through call is not an entry
+			if in == phi.Block().Instrs[0] && i > 0 && path[i-1].Block().Parent() == phi.Block().Parent() {
+				prev = path[i-1].Block()
 				found = true
 				// keep the last entry into the block before the end of the path
 			}
@@ -1094,6 +1171,14 @@ func rvI(v ssa.Value, i int) ssa.Value {
 	}
 	r, _ := curPath.res(v, curPath.frames[i])
 	return r
+}
+
+// rvLast resolves v as seen at the end of the path walked so far (for edge filters).
+func rvLast(v ssa.Value) ssa.Value {
+	if curPath == nil || len(curPath.path) == 0 {
+		return v
+	}
+	return valueOnPath(rvI(v, len(curPath.path)-1), curPath.path)
 }
 
 // rvAny resolves a value whose frame is not known: tries the frame of its defining instruction.
@@ -1282,6 +1367,9 @@ func phiFeasible(b *ssa.BasicBlock, succ int, path []ssa.Instruction) bool {
 				return false
 			}
 		}
+		if c, isCall := v.(*ssa.Call); isCall && alwaysNonNil(c.Call.StaticCallee(), 0) {
+			return eq != truth
+		}
 		switch v.(type) {
 		case *ssa.MakeInterface, *ssa.Alloc, *ssa.MakeSlice, *ssa.MakeMap, *ssa.MakeClosure, *ssa.FieldAddr:
 			return eq != truth // x is non-nil: edge asserting x == nil infeasible
@@ -1302,4 +1390,37 @@ func phiFeasible(b *ssa.BasicBlock, succ int, path []ssa.Instruction) bool {
 		}
 	}
 	return true
+}
+
+// alwaysNonNil: a function with one result that is never nil — the standard error constructors, or a module
+// function each of whose returns is a MakeInterface, an allocation, or a call of such a function.
+func alwaysNonNil(fn *ssa.Function, depth int) bool {
+	if fn == nil || depth > 3 {
+		return false
+	}
+	switch fn.String() {
+	case "errors.New", "fmt.Errorf", "golang.org/x/xerrors.New", "golang.org/x/xerrors.Errorf":
+		return true
+	}
+	if fn.Blocks == nil || fn.Signature.Results().Len() != 1 {
+		return false
+	}
+	ok, n := true, 0
+	allInstrs(fn, func(in ssa.Instruction) {
+		rt, isR := in.(*ssa.Return)
+		if !isR {
+			return
+		}
+		n++
+		switch x := rt.Results[0].(type) {
+		case *ssa.MakeInterface, *ssa.Alloc, *ssa.MakeSlice, *ssa.MakeMap, *ssa.MakeClosure:
+		case *ssa.Call:
+			if !alwaysNonNil(x.Call.StaticCallee(), depth+1) {
+				ok = false
+			}
+		default:
+			ok = false
+		}
+	})
+	return ok && n > 0
 }
